@@ -13,7 +13,7 @@ type Gen struct {
 
 func NewGen(seed int64) *Gen { return &Gen{r: rand.New(rand.NewSource(seed))} }
 
-func (g *Gen) intn(n int) int { return g.r.Intn(n) }
+func (g *Gen) intn(n int) int        { return g.r.Intn(n) }
 func (g *Gen) chance(p float64) bool { return g.r.Float64() < p }
 
 func (g *Gen) pick(xs ...int) int { return xs[g.r.Intn(len(xs))] }
